@@ -1074,7 +1074,7 @@ def _np_repeat(a, repeats, axis=None):
     return a[tuple(idx)]
 
 
-def _np_cross(a, b):
+def _np_cross(a, b, axis=None, **kw):
     a, b = XArray.from_nested(a), XArray.from_nested(b)
     if a.shape != (3,) or b.shape != (3,):
         raise XArrayError("cross supports 3-vectors only")
